@@ -92,6 +92,9 @@ extern const char *vh_load_kid;
 /* tracking allocator: foreign frees and writes after free inside uninstrumented libraries (single-threaded drivers only) */
 void vh_alloc_install(void);
 void vh_alloc_checkpoint(void);
+long vh_alloc_live(void);
+void vh_alloc_leak(long before, const char *what);	/* aborts like a sanitizer report if the live count moved */
+void vh_lib_free(void *p);			/* release library-returned memory (tokens, JSON text) through the installed allocator */
 extern unsigned long vh_alloc_blocks, vh_alloc_checked;
 
 /* ---- reference crypto (OpenSSL directly) ---------------------------------- */
